@@ -22,7 +22,22 @@ static mut VK_POS: [usize; 8] = [NOLINE; 8];
 static mut VK_CALL: usize = 0;
 static mut VK_MAX_ALLOC: usize = 0;
 
+#[cfg(not(kani))]
+extern "Rust" {
+    static VK_NATIVE_MAX_ALLOC: std::sync::atomic::AtomicUsize; // defined by the replay runner (counting allocator)
+}
+/// largest single allocation request since the last set_layout()
+fn max_alloc() -> usize {
+    #[cfg(kani)]
+    return unsafe { VK_MAX_ALLOC };
+    #[cfg(not(kani))]
+    return unsafe { VK_NATIVE_MAX_ALLOC.load(std::sync::atomic::Ordering::Relaxed) };
+}
 fn set_layout(pos: &[usize]) {
+    #[cfg(not(kani))]
+    unsafe {
+        VK_NATIVE_MAX_ALLOC.store(0, std::sync::atomic::Ordering::Relaxed);
+    }
     // straight-line (no loop: the unwind bound is spent on the code under test)
     let g = |i: usize| if i < pos.len() { pos[i] } else { NOLINE };
     unsafe {
@@ -64,6 +79,16 @@ fn read_line_model(buf: &mut &[u8]) -> RespResult<Option<Vec<u8>>> {
 /// Every temporary the decoder allocates (the element vector of an incomplete array, line copies) is
 /// released before it returns, so its size is seen here; what it returns is inspected through capacity().
 /// The block is leaked instead of freed (irrelevant to the properties; like mem::forget).
+/// Second monitor, for the header-only harnesses: stub for std::alloc::alloc that records the largest single
+/// request and forwards to alloc_zeroed (Kani 0.68 does not route Vec's release through the stubbed
+/// `dealloc`, so temporaries are seen on the way in).
+#[cfg(kani)]
+unsafe fn vk_alloc(layout: std::alloc::Layout) -> *mut u8 {
+    if layout.size() > VK_MAX_ALLOC {
+        VK_MAX_ALLOC = layout.size();
+    }
+    std::alloc::alloc_zeroed(layout)
+}
 #[cfg(kani)]
 unsafe fn vk_dealloc(_ptr: *mut u8, layout: std::alloc::Layout) {
     if layout.size() > VK_MAX_ALLOC {
@@ -240,7 +265,7 @@ pub fn bulk_frame<const H: usize, const P: usize>() {
         }
     }
     // allocation: nothing the decoder asks for exceeds a small multiple of the bytes received
-    assert!(unsafe { VK_MAX_ALLOC } <= 64 + 40 * n, "C21 allocation larger than a small multiple of the bytes received");
+    assert!(max_alloc() <= 64 + 40 * n, "C21 allocation larger than a small multiple of the bytes received");
     vk_cover!(matches!(&r, Ok(Some(RespValue::BulkString(Some(d)))) if d.len() > 0), "reach payload");
     vk_cover!(c == 1, "reach need-more");
     vk_cover!(c == 2, "reach error");
@@ -291,7 +316,7 @@ pub fn array_frame<const H: usize, const K: usize>() {
             _ => assert!(false, "C20 array frame decoded to a value of another type"),
         }
     }
-    assert!(unsafe { VK_MAX_ALLOC } <= 64 + 40 * n, "C21 allocation larger than a small multiple of the bytes received");
+    assert!(max_alloc() <= 64 + 40 * n, "C21 allocation larger than a small multiple of the bytes received");
     vk_cover!(matches!(&r, Ok(Some(RespValue::Array(items))) if items.len() == K && K > 0), "reach full array");
     vk_cover!(c == 1, "reach need-more");
     vk_cover!(c == 2, "reach error");
@@ -348,7 +373,7 @@ pub fn array_elems<const K: usize>(count: usize) {
             assert!(buf.len() == n, "C20 decoder consumed bytes although it asked for more data");
         }
     }
-    assert!(unsafe { VK_MAX_ALLOC } <= 64 + 40 * n, "C21 allocation larger than a small multiple of the bytes received");
+    assert!(max_alloc() <= 64 + 40 * n, "C21 allocation larger than a small multiple of the bytes received");
     vk_cover!(c == 0, "reach value");
     vk_cover!(c == 1 || count <= K, "reach need-more");
     std::mem::forget((r, buf, v));
@@ -383,7 +408,7 @@ fn huge_count<const D: usize>(ty: u8) {
     if c == 1 {
         assert!(buf.len() == n, "C20 decoder consumed bytes although it asked for more data");
     }
-    assert!(unsafe { VK_MAX_ALLOC } <= 64 + 40 * n, "C21 allocation larger than a small multiple of the bytes received");
+    assert!(max_alloc() <= 64 + 40 * n, "C21 allocation larger than a small multiple of the bytes received");
     vk_cover!(c == 1 || c == 2, "reach");
     std::mem::forget((r, buf, v));
 }
